@@ -147,7 +147,9 @@ static BlockAllocator BA;
 static void setup(RegP *p, int tr, int mem16, size_t blocksize, Arr *a)
 {
     memset(p, 0xA5, sizeof *p);          /* initialisation must not rely on a zeroed instance */
-    regp_init(p);
+    static unsigned inits;
+    if (inits++ % 3 == 2) { RegP fresh = RP_NEW_INSTANCE; *p = fresh; }      /* every third instance is set up with the public static initialiser */
+    else regp_init(p);
     if (mem16 == 2) { /* nothing attached: the default after init */ }
     else if (mem16) regp_use_memory16(p, r16, w16); else regp_use_memory8(p, r8, w8);
     B.ws = mem16 ? 2 : 1;
